@@ -177,14 +177,49 @@ package dragonboat
 // stopping the shard terminates everything still pending, once, and closes the table for good
 //@ func (p *proposalShard) close [C12]
 //@ noframe
-//@ requires p.wf() && held(p.mu) == 0
+//@ requires p.wf()
 //@ modifies held(p.mu), p.stopped
 //@ ensures p.stopped && held(p.mu) == 0
 //@ ensures forall k uint64 :: k in p.pending ==> len(p.pending[k].CompletedC) == old(len(p.pending[k].CompletedC)) + 1
 //@ loop 1 invariant p.pending != nil && p.stopped && held(p.mu) == 2 && (forall k uint64 :: (k in p.pending) == old(k in p.pending)) && (forall k uint64 :: k in p.pending ==> p.pending[k] == old(p.pending[k]))
 //@ loop 1 invariant forall k uint64 :: k in p.pending ==> len(p.pending[k].CompletedC) == old(len(p.pending[k].CompletedC)) + ite(visited(k), 1, 0)
+//@ pred (q *entryQueue) wf() := len(q.left) == q.size && len(q.right) == q.size && q.idx <= q.size && q.oldIdx <= q.size && disjoint(q.left, q.right)
+//@ pure sameent(a pb.Entry, b pb.Entry) := a.Key == b.Key && a.ClientID == b.ClientID && a.SeriesID == b.SeriesID && a.RespondedTo == b.RespondedTo && a.Type == b.Type && ptr(a.Cmd) == ptr(b.Cmd) && len(a.Cmd) == len(b.Cmd) && a.Term == b.Term && a.Index == b.Index
 //@ func (q *entryQueue) close [C12]
-//@ trusted stops the proposal queue
+//@ modifies q.stopped
+//@ ensures q.stopped
+//@ func (q *entryQueue) add [C12]
+//@ requires q.wf()
+//@ modifies q.idx, elems(q.left), elems(q.right)
+//@ ensures q.wf()
+//@ ensures old(q.stopped) ==> !result0 && result1
+//@ ensures result0 <==> (!old(q.stopped) && !q.paused && old(q.idx) < q.size)
+//@ ensures result0 ==> !result1 && q.idx == old(q.idx) + 1 && (q.leftInWrite ==> sameent(q.left[old(q.idx)], ent)) && (!q.leftInWrite ==> sameent(q.right[old(q.idx)], ent))
+//@ ensures !result0 ==> q.idx == old(q.idx)
+//@ ensures forall j int :: 0 <= j && j < len(q.left) && !(result0 && q.leftInWrite && j == old(q.idx)) ==> sameent(q.left[j], old(q.left[j]))
+//@ ensures forall j int :: 0 <= j && j < len(q.right) && !(result0 && !q.leftInWrite && j == old(q.idx)) ==> sameent(q.right[j], old(q.right[j]))
+// lazy clearing of payload references touches only the buffer that is in write now
+//@ func (q *entryQueue) gc [C12]
+//@ requires q.wf()
+//@ modifies elems(q.left), elems(q.right)
+//@ ensures !q.leftInWrite ==> (forall j int :: 0 <= j && j < len(q.left) ==> sameent(q.left[j], old(q.left[j])))
+//@ ensures q.leftInWrite ==> (forall j int :: 0 <= j && j < len(q.right) ==> sameent(q.right[j], old(q.right[j])))
+//@ loop 1 modifies elems(q.left), elems(q.right)
+//@ loop 1 invariant i <= q.oldIdx
+//@ loop 1 invariant !q.leftInWrite ==> (forall j int :: 0 <= j && j < len(q.left) ==> sameent(q.left[j], old(q.left[j])))
+//@ loop 1 invariant q.leftInWrite ==> (forall j int :: 0 <= j && j < len(q.right) ==> sameent(q.right[j], old(q.right[j])))
+//@ loop 2 modifies elems(q.left), elems(q.right)
+//@ loop 2 invariant i <= q.size
+//@ loop 2 invariant !q.leftInWrite ==> (forall j int :: 0 <= j && j < len(q.left) ==> sameent(q.left[j], old(q.left[j])))
+//@ loop 2 invariant q.leftInWrite ==> (forall j int :: 0 <= j && j < len(q.right) ==> sameent(q.right[j], old(q.right[j])))
+// get(): exactly the entries added since the last get(), in order, untouched by the lazy clearing of
+// the OTHER buffer (which only drops payload references of entries handed out two calls ago)
+//@ func (q *entryQueue) get [C12]
+//@ requires q.wf()
+//@ modifies q.idx, q.leftInWrite, q.paused, q.cycle, q.oldIdx, elems(q.left), elems(q.right)
+//@ ensures q.wf() && q.idx == 0 && q.leftInWrite == !old(q.leftInWrite) && q.paused == paused
+//@ ensures len(result) == old(q.idx) && (forall j int :: 0 <= j && j < len(result) ==> (old(q.leftInWrite) ==> sameent(result[j], old(q.left[j]))) && (!old(q.leftInWrite) ==> sameent(result[j], old(q.right[j]))))
+//@ ensures (q.leftInWrite ==> disjoint(result, q.left)) && (!q.leftInWrite ==> disjoint(result, q.right))
 
 // ---------------------------------------------------------------- single-slot request tables (C12)
 // config change and snapshot requests: at most one is pending; a request is notified exactly
@@ -233,10 +268,22 @@ package dragonboat
 // ---------------------------------------------------------------- every pending request is eventually resolved (C12)
 // expiry is tick-driven: each tick of a replica advances the clocks of all its request tables,
 // whether the replica is quiesced or not
-//@ ghost var gProposalClockTick int
+// the proposal table is sharded: ps shards, all of them allocated by the constructor
+//@ pred (p *pendingProposal) shardsOK() := p.ps == len(p.shards) && (forall i int :: 0 <= i && i < len(p.shards) ==> p.shards[i] != nil)
+//@ func getRng [C12]
+//@ trusted seeds a key generator from pid, time and ids (os, time, sha512, math/rand)
+//@ ensures result != nil
+//@ func newPendingProposal [C12]
+//@ noframe
+//@ ensures result.ps == len(result.shards) && (forall i int :: 0 <= i && i < len(result.shards) ==> result.shards[i] != nil)
+//@ loop 1 invariant i <= ps && p.ps == ps && len(p.shards) == ps && len(p.keyg) == ps && (forall j int :: 0 <= j && j < i ==> p.shards[j] != nil)
 //@ func (p *pendingProposal) tick [C12]
-//@ trusted advances the clock of every proposal shard (three-line loop)
-//@ ghostset gProposalClockTick := tick
+//@ requires p.shardsOK()
+//@ modifies allof(logicalClock.ltick)
+//@ ensures forall i int :: 0 <= i && i < len(p.shards) ==> p.shards[i].ltick == tick
+//@ ensures forall c *logicalClock :: c.ltick == old(c.ltick) || c.ltick == tick
+//@ loop 1 invariant i <= p.ps && (forall j int :: 0 <= j && j < i ==> p.shards[j].ltick == tick)
+//@ loop 1 invariant forall c *logicalClock :: c.ltick == old(c.ltick) || c.ltick == tick
 //@ func (q *quiesceState) tick [C12]
 //@ trusted quiesce bookkeeping
 //@ func (q *quiesceState) quiesced [C12]
@@ -244,8 +291,10 @@ package dragonboat
 //@ func (n *node) tick [C12]
 //@ noframe
 //@ nobounds
-//@ modifies gProposalClockTick, n.currentTick
-//@ ensures result == nil ==> n.pendingSnapshot.ltick == tick && n.pendingReadIndexes.ltick == tick && n.pendingConfigChange.ltick == tick && gProposalClockTick == tick
+//@ free requires n.pendingProposals.shardsOK()
+//@ modifies n.currentTick
+//@ ensures result == nil ==> n.pendingSnapshot.ltick == tick && n.pendingReadIndexes.ltick == tick && n.pendingConfigChange.ltick == tick
+//@ ensures result == nil ==> (forall i int :: 0 <= i && i < len(n.pendingProposals.shards) ==> n.pendingProposals.shards[i].ltick == tick)
 
 // stopping a replica terminates everything pending in all five request tables, unconditionally
 //@ ghost var gClosedProposals bool
@@ -254,14 +303,50 @@ package dragonboat
 //@ ghost var gClosedSS bool
 //@ ghost var gClosedLQ bool
 //@ func (p *pendingProposal) close [C12]
-//@ trusted closes every proposal shard (three-line loop; proposalShard.close is under contract)
+//@ noframe
+//@ requires p.shardsOK() && (forall i int :: 0 <= i && i < len(p.shards) ==> p.shards[i].wf())
+//@ modifies gClosedProposals
+//@ ensures forall i int :: 0 <= i && i < len(p.shards) ==> p.shards[i].stopped
 //@ ghostset gClosedProposals := true
+//@ loop 1 invariant forall j int :: 0 <= j && j <= $i && j < len(p.shards) ==> p.shards[j].stopped
+//@ loop 1 invariant forall j int :: 0 <= j && j < len(p.shards) ==> p.shards[j] != nil && p.shards[j].wf()
+// closing the read-index table: the input queue is closed first (nothing more is accepted), then every
+// request still queued and every request of every batch is given Terminated
 //@ func (p *pendingReadIndex) close [C12]
-//@ trusted terminates queued and batched read requests
+//@ noframe
+//@ nobounds
+//@ requires p.batches != nil && held(p.mu) == 0 && (p.requests != nil ==> p.requests.wf())
+//@ modifies held(p.mu), p.stopped, gClosedReads
+//@ ensures p.stopped && (p.requests != nil ==> p.requests.stopped && p.requests.idx == 0)
 //@ ghostset gClosedReads := true
+//@ loop 1 step len(rec.CompletedC) > 0
+//@ loop 3 step req != nil ==> len(req.CompletedC) > 0
+// a dropped read batch: every request of the batch is told so, and the batch leaves the table
+//@ func (p *pendingReadIndex) dropped [C12]
+//@ noframe
+//@ nobounds
+//@ requires p.batches != nil && held(p.mu) == 0
+//@ modifies held(p.mu), entries(p.batches)
+//@ ensures !p.stopped ==> !(system in p.batches)
+//@ ensures forall k pb.SystemCtx :: k != system ==> (k in p.batches) == old(k in p.batches)
+//@ loop 1 step req != nil ==> len(req.CompletedC) > 0
+// the single-slot table of raft log queries: the request is notified exactly when it leaves the slot
+// (close: Terminated; returned: the query result), a request accepted into an empty slot has an
+// empty result channel, and a second query is refused while one is pending
 //@ func (p *pendingRaftLogQuery) close [C12]
-//@ trusted terminates the pending log query
+//@ modifies held(p.mu.Mutex), p.mu.pending, chan(old(p.mu.pending).CompletedC), old(p.mu.pending).readyToRelease.val, gClosedLQ
+//@ ensures p.mu.pending == nil
+//@ ensures old(p.mu.pending) != nil ==> len(old(p.mu.pending).CompletedC) == old(len(p.mu.pending.CompletedC)) + 1
 //@ ghostset gClosedLQ := true
+//@ func (p *pendingRaftLogQuery) add [C12]
+//@ modifies held(p.mu.Mutex), p.mu.pending
+//@ ensures old(p.mu.pending) != nil ==> result0 == nil && result1 != nil && p.mu.pending == old(p.mu.pending) && len(p.mu.pending.CompletedC) == old(len(p.mu.pending.CompletedC))
+//@ ensures old(p.mu.pending) == nil ==> result1 == nil && result0 != nil && fresh(result0) && p.mu.pending == result0 && result0.CompletedC != nil && len(result0.CompletedC) == 0 && cap(result0.CompletedC) == 1
+//@ ensures old(p.mu.pending) == nil ==> result0.logRange.FirstIndex == firstIndex && result0.logRange.LastIndex == lastIndex && result0.maxSize == maxSize
+//@ func (p *pendingRaftLogQuery) returned [C12]
+//@ modifies held(p.mu.Mutex), p.mu.pending, chan(old(p.mu.pending).CompletedC), old(p.mu.pending).readyToRelease.val
+//@ ensures old(p.mu.pending) != nil && p.mu.pending == nil
+//@ ensures len(old(p.mu.pending).CompletedC) == old(len(p.mu.pending.CompletedC)) + 1
 //@ func (n *node) requestRemoval [C12]
 //@ trusted closes the stop channel
 //@ func (q *raftEventListener) close [C12]
@@ -269,6 +354,8 @@ package dragonboat
 //@ func (n *node) close [C12]
 //@ noframe
 //@ nobounds
+//@ free requires n.pendingReadIndexes.batches != nil && held(n.pendingReadIndexes.mu) == 0 && (n.pendingReadIndexes.requests != nil ==> n.pendingReadIndexes.requests.wf())
+//@ free requires n.pendingProposals.shardsOK() && (forall i int :: 0 <= i && i < len(n.pendingProposals.shards) ==> n.pendingProposals.shards[i].wf())
 //@ modifies gClosedProposals, gClosedReads, gClosedCC, gClosedSS, gClosedLQ
 //@ ensures gClosedProposals && gClosedReads && gClosedCC && gClosedSS && gClosedLQ
 
@@ -369,8 +456,18 @@ package dragonboat
 // a batch of readers is released (and leaves the table) only when its recorded index has been applied
 //@ func (p *pendingReadIndex) getTick [C06]
 //@ trusted reads the logical clock
-//@ func (p *pendingReadIndex) gc [C06]
-//@ trusted expiry of timed-out read requests
+// expiry of read requests (C12): a request given Timeout is taken out of its batch in the same step
+// (its slot is cleared, so no later release, drop or close can notify it again), a request that has
+// not expired stays in its slot untouched, and a batch leaves the table only when every slot is empty
+//@ func (p *pendingReadIndex) gc [C06 C12]
+//@ noframe
+//@ nobounds
+//@ requires p.batches != nil
+//@ modifies entries(p.batches)
+//@ loop 2 step (req != nil && req.deadline < now) ==> rb.requests[idx] == nil && len(req.CompletedC) > 0
+//@ loop 2 step !(req != nil && req.deadline < now) ==> rb.requests[idx] == req
+//@ loop 3 step !(sys in p.batches) ==> (forall j int :: 0 <= j && j < len(rb.requests) ==> rb.requests[j] == nil)
+//@ loop 4 invariant empty ==> (forall j int :: 0 <= j && j <= $i && j < len(rb.requests) ==> rb.requests[j] == nil)
 //@ func (r *ready) set [C06]
 //@ trusted atomic flag
 // gRIAppliedCalled: the read-index table has been told the applied index (this call also drives the
@@ -489,3 +586,29 @@ package dragonboat
 //@ requires !gRIAppliedCalled && n.pendingReadIndexes.batches != nil
 //@ modifies gRIAppliedCalled
 //@ ensures result1 == nil && result0 ==> gRIAppliedCalled
+
+// ---------------------------------------------------------------- the input queues of accepted requests (C12)
+// From the property: an accepted request is neither lost nor duplicated on its way to the raft core.
+// Both queues are double buffers: add() stores into the buffer in write, get() hands out exactly what
+// was added since the previous get(), in order, and flips the buffers, so what it returned is not
+// overwritten before the NEXT get(); a closed (or full) queue refuses.
+//@ pred (q *readIndexQueue) wf() := len(q.left) == q.size && len(q.right) == q.size && q.idx <= q.size && disjoint(q.left, q.right)
+//@ func (q *readIndexQueue) close [C12]
+//@ modifies q.stopped
+//@ ensures q.stopped
+//@ func (q *readIndexQueue) add [C12]
+//@ requires q.wf()
+//@ modifies q.idx, elems(q.left), elems(q.right)
+//@ ensures q.wf()
+//@ ensures old(q.stopped) ==> !result0 && result1
+//@ ensures result0 <==> (!old(q.stopped) && old(q.idx) < q.size)
+//@ ensures result0 ==> !result1 && q.idx == old(q.idx) + 1 && (q.leftInWrite ==> q.left[old(q.idx)] == rs) && (!q.leftInWrite ==> q.right[old(q.idx)] == rs)
+//@ ensures !result0 ==> q.idx == old(q.idx)
+//@ ensures forall j int :: 0 <= j && j < len(q.left) && !(result0 && q.leftInWrite && j == old(q.idx)) ==> q.left[j] == old(q.left[j])
+//@ ensures forall j int :: 0 <= j && j < len(q.right) && !(result0 && !q.leftInWrite && j == old(q.idx)) ==> q.right[j] == old(q.right[j])
+//@ func (q *readIndexQueue) get [C12]
+//@ requires q.wf()
+//@ modifies q.idx, q.leftInWrite
+//@ ensures q.wf() && q.idx == 0 && q.leftInWrite == !old(q.leftInWrite)
+//@ ensures len(result) == old(q.idx) && (forall j int :: 0 <= j && j < len(result) ==> (old(q.leftInWrite) ==> result[j] == old(q.left[j])) && (!old(q.leftInWrite) ==> result[j] == old(q.right[j])))
+//@ ensures (q.leftInWrite ==> disjoint(result, q.left)) && (!q.leftInWrite ==> disjoint(result, q.right))
